@@ -74,7 +74,13 @@ class RandomState:
         ctx = core.cur()
         for v in vals:
             ctx.assume(z3.And(v.z >= 0, v.z < n))
-        if n > 1:
+        if ctx.state.get("rng_rotations"):
+            # restricted outcome set (stated by the configuration that asks for it): the solver picks a rotation
+            r = core.Int("rng_rot_%d" % k)
+            ctx.assume(z3.And(r.z >= 0, r.z < min(max(n, 1), 2)))
+            rv = int(r)                                  # identity or rotation by one: a path each
+            vals = [(rv + i) % max(n, 1) for i in range(n)]
+        elif n > 1:
             ctx.assume(z3.Distinct(*[v.z for v in vals]))
         return vals
 
